@@ -593,7 +593,8 @@ func c06Convert(src []byte) (f *ir.File, err error) {
 
 func c06Fixtures() [][]byte {
 	var out [][]byte
-	for _, pat := range []string{"/repo/analyzer/testdata/src/*/rules*.go", "/repo/analyzer/testdata/src/*/*/rules*.go", "/repo/rules/*.go", "/repo/_docs/*.go"} {
+	root := hx.RepoRoot()
+	for _, pat := range []string{root + "/analyzer/testdata/src/*/rules*.go", root + "/analyzer/testdata/src/*/*/rules*.go", root + "/rules/*.go", root + "/_docs/*.go"} {
 		files, _ := filepath.Glob(pat)
 		sort.Strings(files)
 		for _, p := range files {
